@@ -347,7 +347,9 @@ def run(chk, tier, proof_ok):
     import realsearch
     tdf, nsnap = realsearch.td_snapshot_findings(chk.seed * 37 + 1, 8 if tier == 'quick' else 60)
     chk.coverage['transdimensional_snapshots'] = nsnap
-    findings = list(findings) + tdf
+    ptf, nobj = realsearch.pt_snapshot_findings(chk.seed * 53 + 5, 6 if tier == 'quick' else 40)
+    chk.coverage['pt_state_objects'] = nobj
+    findings = list(findings) + tdf + ptf
     for key, text, payload in findings:
         chk.violation(key, text, payload, True)
     broken = []
